@@ -583,6 +583,22 @@ theorem C08_fence_original_order_writes_after_trailer :
       = some ([lpmTrailer (trailerWithStatus [] 4 [])], some .doneCanceled) := by
   decide
 
+/-- The lock scope and flag order the fixed-order LTS has are the ones in the source now (regenerated go/ast facts):
+    `send` takes the mutex first, releases it by a deferred Unlock (so it covers the writes), tests `finished` under it and
+    returns without writing when it is set, writes after the test (WebSocket: `if !sentMD { sentMD = true; header frame }`
+    then the data frame); `finish` / `sendTrailer` set the flag between Lock and Unlock and write the trailer after the
+    Unlock; GRPCWebBridge.ServeHTTP calls Forward, then finish(), then writeTrailerWithStatus (the first
+    writeTrailerWithStatus is the routing-failure return, before any stream exists). -/
+theorem C08_facts_fence :
+    GB.Generated.grpcwebFenceHTTPSend = ["Lock", "defer Unlock", "if finished return", "Write"] ∧
+    GB.Generated.grpcwebFenceHTTPFinish = ["Lock", "finished=true", "Unlock"] ∧
+    GB.Generated.grpcwebFenceHTTPServe = ["writeTrailerWithStatus", "Forward", "finish", "writeTrailerWithStatus"] ∧
+    GB.Generated.grpcwebFenceWSSend =
+      ["Lock", "defer Unlock", "if finished return", "if !sentMD", "sentMD=true", "WriteMessage", "WriteMessage"] ∧
+    GB.Generated.grpcwebFenceWSTrailer =
+      ["SetDeadline", "Lock", "finished=true", "Unlock", "SetDeadline", "WriteMessage", "closeGracefully"] := by
+  decide
+
 -- a schedule with two Sends, the second abandoned and late but before the fence: both frames, then the trailer
 example : (GB.LTS.run Fence.step (Fence.init .fixed .ws)
     [.setHeader [], .send [1], .send [2], .hLock 0, .hCheck 0, .hWriteHdr 0, .hWrite 0, .fwdReturn 0 [], .hUnlock 0,
